@@ -499,6 +499,21 @@ func c13(r *Run) {
 		if n < 2 {
 			r.absentf(" C13: only %d stores of eventLoop.svr", n)
 		}
+		// ... and only once that Close has succeeded: a Shutdown that timed out must leave the handle in place, or the next
+		// Shutdown finds no server and returns nil at once with the busy connections still tracked
+		closedOK := cmpAtom(func(v ssa.Value) bool {
+			c, ok := v.(*ssa.Call)
+			return ok && c.Call.StaticCallee() == srvClose
+		}, isNilConst, eqRel)
+		for _, fn := range w.Funcs {
+			for _, i := range allIns(fn) {
+				st, ok := i.(*ssa.Store)
+				if !ok || !isStoreToField(i, "eventLoop", "svr") || !isNilConst(st.Val) {
+					continue
+				}
+				r.guarded("C13.R6:handle-cleared-only-after-close-succeeded", "Shutdown gives up the server handle only after server.Close returned nil: after a Shutdown that ran into its deadline the server is still there (listener closed, busy connections tracked), and a second Shutdown must find it and wait for those connections instead of returning nil at once", fn, i, closedOK, nil, "guarded by svr.Close(ctx) == nil")
+			}
+		}
 	}
 
 	// ---- R5 EMFILE back-off re-arms --------------------------------------------------------------------
